@@ -79,6 +79,9 @@ MUTANTS = [
      "    Element.covalent_radius_units = 'angstrom'\n    Element.covalent_radius = None\n    Element.covalent_radius_uncertainty = None\n    table[0].covalent_radius = 0.20\n", "class defaults written before the first instance write (all three names are overwritten: harmless)"),
     # ---- C10
     ("C10", "fire", CS, "        table[Z].crystal_structure = dict(struct) if struct is not None else None", "        table[Z].crystal_structure = struct", "module-level dicts shared again"),
+    ("C10", "fire", C, "            if el.table != PUBLIC_TABLE_NAME:\n                loader()\n", "", "the setter no longer loads the public table when a private table is written first (reverse of the fix)"),
+    ("C10", "silent", C, "            if el.table != PUBLIC_TABLE_NAME:\n                loader()\n", "            if not el.table == PUBLIC_TABLE_NAME:\n                loader()\n", "same test, other spelling"),
+    ("C10", "fire", N, "    missing = _MISSING\n", "    missing = Neutron()\n", "a new default record per nsf.init (reverse of the fix)"),
     ("C10", "fire", F, "    pairs = [(formula(args[i], table=table), args[i+1])\n             for i in range(0, len(args), 2)]\n    result = _mix_by_weight_pairs(pairs)",
      "    pairs = [(formula(args[i]), args[i+1])\n             for i in range(0, len(args), 2)]\n    result = _mix_by_weight_pairs(pairs)", "table= dropped"),
     ("C10", "silent", F, "    pairs = [(formula(args[i], table=table), args[i+1])\n             for i in range(0, len(args), 2)]\n    result = _mix_by_weight_pairs(pairs)",
